@@ -67,7 +67,7 @@ class TreeGen:
         s = '  ' + self.pg.statement()
         return s, s
 
-    def make_file(self, idx, name, d, is_main):
+    def make_file(self, idx, name, d, is_main, private=False):
         rnd = self.rnd
         items = []
         ctx = {'locals': {}, 'filelabs': {}}
@@ -82,8 +82,13 @@ class TreeGen:
         pending_filelabs = list(my_filelabs)
         n_regions = rnd.randrange(1, 4)
         n_glob = rnd.randrange(1, 3) if not is_main else rnd.randrange(1, 4)
-        my_globals = [self.globals_free.pop() for _ in range(min(n_glob, len(self.globals_free)))]
-        self.file_globals[idx] = my_globals
+        if private:
+            # a file that is only ever included from an unselected branch: its labels must be invisible to the rest
+            my_globals = [f'p{idx}{c}' for c in 'abc'[:n_glob]]
+            self.file_globals[idx] = []
+        else:
+            my_globals = [self.globals_free.pop() for _ in range(min(n_glob, len(self.globals_free)))]
+            self.file_globals[idx] = my_globals
         # a few lines before any label (no local labels possible here)
         for _ in range(rnd.randrange(0, 3)):
             s, r = self.body_line({'locals': {}, 'filelabs': ctx['filelabs']})
@@ -130,7 +135,11 @@ class TreeGen:
             self.planned_globals = list(self.globals_free[-min(len(self.globals_free), 3 * n):])
             names = ['main.asm'] + rnd.sample(FILE_NAMES, n - 1)
             dirs = [''] + [rnd.choice(DIRS) for _ in range(n - 1)]
-            files = [self.make_file(i, names[i], dirs[i], i == 0) for i in range(n)]
+            # decide up front how each include will be wrapped (files under an unselected wrapper are "private")
+            wraps = [1.0] + [(rnd.random() if self.wrap_includes else 1.0) for _ in range(n - 1)]
+            openers = [None] + [rnd.choice(['#if 0', '#if 1', '#ifdef NOSYM9', '#ifndef NOSYM9']) for _ in range(n - 1)]
+            private = [w < 0.15 and o in ('#if 0', '#ifdef NOSYM9') for w, o in zip(wraps, openers)]
+            files = [self.make_file(i, names[i], dirs[i], i == 0, private[i]) for i in range(n)]
             used = [g for i in range(n) for g in self.file_globals[i]]
             if self.broken:
                 self.globals_free = saved_free
@@ -142,18 +151,36 @@ class TreeGen:
                 files[0]['items'].append({'t': 'line', 's': f'{g}:', 'r': f'{g}:'})
                 files[0]['items'].append({'t': 'line', 's': '  .byte 1', 'r': '  .byte 1'})
                 self.all_globals.append(g)
-            # build the include tree: file i (i>0) is included from a random earlier file
+            # build the include tree: file i (i>0) is included from a random earlier file that is itself reachable
             for i in range(1, n):
-                parent = files[rnd.randrange(0, i)] if rnd.random() < 0.5 else files[0]
+                cands = [j for j in range(0, i) if not private[j]]
+                parent = files[rnd.choice(cands)] if rnd.random() < 0.5 else files[0]
                 pos = rnd.randrange(0, len(parent['items']) + 1)
-                wrap = rnd.random() if self.wrap_includes else 1.0
+                wrap = wraps[i]
                 seq = [{'t': 'inc', 'file': files[i]}]
 
                 def ln(text):
                     return {'t': 'line', 's': text, 'r': text}
                 if wrap < 0.15:
                     # include inside a conditional block (selected or not): as if pasted there
-                    seq = [ln(rnd.choice(['#if 0', '#if 1', '#ifdef NOSYM9', '#ifndef NOSYM9']))] + seq + [ln('#endif')]
+                    opener = openers[i]
+                    inactive = private[i]
+                    seq = [ln(opener)] + seq + [ln('#endif')]
+                    leak = rnd.randrange(5)
+                    if leak == 0:
+                        # a symbol defined by the included file is visible afterwards iff the block was selected
+                        files[i]['items'].append(ln(f'#define LK{i} 1'))
+                        seq += [ln(f'#ifdef LK{i}'), ln('  .byte $99'), ln('#else'), ln('  .byte $66'), ln('#endif')]
+                    elif leak == 1 and inactive:
+                        # a constant / zone defined only inside the excluded file may be defined again afterwards
+                        files[i]['items'].append(ln(f'KL{i} = 5'))
+                        seq += [ln(f'KL{i} = 6'), ln(f'  .byte KL{i}')]
+                    elif leak == 2 and inactive:
+                        files[i]['items'].append(ln(f'#create_memzone ZL{i} $10 $1f'))
+                        seq += [ln(f'#create_memzone ZL{i} $20 $2f')]
+                    elif leak == 3:
+                        files[i]['items'].append(ln('#mute'))
+                        seq += [ln('  .byte $5A'), ln('#unmute'), ln('  .byte $5B')]
                 elif wrap < 0.27:
                     seq = [ln('#mute')] + seq + [ln(rnd.choice(['#unmute', '#emit']))]
                 elif wrap < 0.33:
